@@ -260,7 +260,7 @@ package app
 //@   ensures kill: stops() == old(stops()) + 1 ==> stopSig(old(stops())) == 9
 //@   ensures daemon-notified: sends() == old(sends()) + ite(p.procConf.IsDaemon, 1, 0)
 //@   ensures notified-after-command: sendAtRuns() == runs()
-//@   assigns runs(), ranEnv(), ranDir(), lastRunFailed(), lastProcEnv(), lastEnviron(), stops(), stopSig(stops()), stopParentOnly(stops()), ctxCount(), lastTimeout(), timeoutCtxs(), slept(), sends(), sendAtRuns(), cancelCalls[*]
+//@   assigns runs(), ranEnv(), ranDir(), lastRunFailed(), lastProcEnv(), lastEnviron(), stops(), stopSig(stops()), stopParentOnly(stops()), ctxCount(), lastTimeout(), timeoutCtxs(), slept(), sends(), sendAtRuns(), cancelCalls[*], cmdCtx[*]
 
 //@ func (p *Process) stopProcess
 //@   requires procWF(p) && unlocked(p)
@@ -269,6 +269,7 @@ package app
 //@   param readyLogCancelFn as cancelcausefunc
 //@   let st0 = p.procState.Status
 //@   let sp = p.procConf.ShutDownParams
+//@   after (*app.Process).isRunning assert cancel-precedes-state-read: cancelReadinessFuncs ==> cancelled(p.procRunCtx)
 //@   ensures runctx: cancelReadinessFuncs ==> cancelled(p.procRunCtx)
 //@   ensures runctx-internal: !cancelReadinessFuncs && st0 != "Pending" ==> cancelCalls(p.procRunCtx) == old(cancelCalls(p.procRunCtx))
 //@   ensures keepstopflag: abool(p.isStopped) == old(abool(p.isStopped))
@@ -494,6 +495,7 @@ package app
 //@   ensures flagged: !p.isOrderedShutDown ==> (forall k string :: k in p.runningProcesses ==> abool(p.runningProcesses[k].isStopped))
 //@   ensures stop-requested: !p.isOrderedShutDown ==> (forall k string :: k in p.runningProcesses ==> cancelled(p.runningProcesses[k].procRunCtx))
 //@   ensures app-cancelled: cancelled(cancelOf(p.cancelAppFn))
+//@   after cancelfunc assert stops-waited-for-first: shutdownWaits() == old(shutdownWaits()) + 1
 //@   ensures exit-code-stable: old(p.exitCodeSet) ==> p.exitCodeSet && p.exitCode == old(p.exitCode)
 //@   ensures nolocks: noLocks()
 //@   sets shutdownCalls() := shutdownCalls() + 1
@@ -520,7 +522,11 @@ package app
 //@   preserves listwf: listWF(shutdownOrder)
 
 // called with runProcMutex held: requests the stop of every listed process; a do-not-restart flag that is set stays set
+// the application context (what the binary waits on under --keep-project) is cancelled only after the stops were
+// requested and waited for
+//@ ghost shutdownWaits() int
 //@ func (p *ProjectRunner) shutDownAndWait
+//@   sets shutdownWaits() := shutdownWaits() + 1
 //@   requires locks: held(p.runProcMutex) && (forall m ref :: m != addr(p.runProcMutex) ==> !held(m))
 //@   requires wf: listWF(shutdownOrder)
 //@   requires runnerwf: runnerWF(p)
@@ -848,12 +854,12 @@ package app
 //@ func runCmd
 //@   param cancel as cancelfunc
 //@   sets okEnvCmds() := okEnvCmds() + ite(result1 == nil, 1, 0)
-//@   assigns okEnvCmds(), ctxCount(), lastTimeout(), timeoutCtxs(), cancelCalls[*], cancelled[*]
+//@   assigns okEnvCmds(), ctxCount(), lastTimeout(), timeoutCtxs(), cancelCalls[*], cancelled[*], cmdCtx[*]
 //@ func (p *ProjectRunner) prepareEnvCmds
 //@   requires noLocks() && p.project != nil
 //@   ensures noLocks()
 //@   ensures one-entry-per-successful-command: len(p.project.Environment) == old(len(p.project.Environment)) + okEnvCmds() - old(okEnvCmds())
-//@   assigns types.Project.Environment[*], heap(Elem.Str), okEnvCmds(), ctxCount(), lastTimeout(), timeoutCtxs(), cancelCalls[*], cancelled[*]
+//@   assigns types.Project.Environment[*], heap(Elem.Str), okEnvCmds(), ctxCount(), lastTimeout(), timeoutCtxs(), cancelCalls[*], cancelled[*], cmdCtx[*]
 //@   loop 1 invariant noLocks() && p.project == old(p.project) && len(p.project.Environment) == old(len(p.project.Environment)) + okEnvCmds() - old(okEnvCmds())
 //@ func (p *ProjectRunner) Run
 //@   requires noLocks() && p.project != nil && p.project.Processes != nil && p.project.ShellConfig != nil
